@@ -71,7 +71,7 @@ func checkC16(P *Program, r *Result, tier string) {
 	nc := 0
 	for _, fn := range repoFuncs(P) {
 		pp := fnPkgPath(fn)
-		if pp != modPath+"/"+relThrift && pp != modPath+"/"+relTT {
+		if !strings.HasPrefix(pp, modPath+"/protocol/") {
 			continue
 		}
 		for _, c := range callsIn(fn) {
@@ -80,6 +80,23 @@ func checkC16(P *Program, r *Result, tier string) {
 			}
 			nc++
 			ok, bad := onlyFresh(rootsOf(c.Common().Args[0]))
+			// ... and that slice is not handed back to the buffer pool by this function
+			if ok {
+				mine := map[Root]bool{}
+				for _, k := range rootsOf(c.Common().Args[0]) {
+					mine[k] = true
+				}
+				for _, c2 := range callsIn(fn) {
+					if cal := c2.Common().StaticCallee(); cal == nil || cal.Name() != "Free" || len(c2.Common().Args) != 1 || !isByteSlice(c2.Common().Args[0].Type()) {
+						continue
+					}
+					for _, k := range rootsOf(c2.Common().Args[0]) {
+						if mine[k] {
+							ok, bad = false, "the slice is recycled at "+P.pos(instrPos(c2.(ssa.Instruction)))+" while the string made of it lives on"
+						}
+					}
+				}
+			}
 			r.add("PRIVATE-CAST", shortName(fn), "call", "the zero-copy []byte→string view is taken of a private, freshly allocated slice only", P.pos(instrPos(c.(ssa.Instruction))), ok, bad)
 		}
 	}
